@@ -1,7 +1,7 @@
 (* Misc.v — macros/enum_is.rs (EnumIs), enum_try_as.rs (EnumTryAs), enum_messages.rs (EnumMessage),
    enum_properties.rs (EnumProperty), enum_discriminants.rs (EnumDiscriminants). *)
 Require Export Strum.Model.Display.
-Open Scope char_scope.
+Local Open Scope char_scope.
 
 (* ---------------- EnumIs (enum_is.rs:6-47, repaired: attribute errors are reported) ---------------- *)
 Record is_method := { im_name : str; im_variant : nat }.
